@@ -3,7 +3,7 @@
 demo passes clean, patch applies and builds, demo fails with the patch, suite passes with it.
 Updates meta.json (confirmed_by_lead) and, if the patch needed fuzz, stores the rebased diff."""
 import glob, json, os, subprocess, sys
-ids=sys.argv[1:] or sorted(os.path.basename(d) for d in glob.glob('/verif/seeded/*'))
+ids=sys.argv[1:] or sorted(os.path.basename(d) for d in glob.glob('/verif/seeded/*') if os.path.isdir(d))
 head=subprocess.run("git -C /repo rev-parse --short HEAD",shell=True,capture_output=True,text=True).stdout.strip()
 for sid in ids:
     d=f"/verif/seeded/{sid}"; m=json.load(open(d+"/meta.json"))
